@@ -10,8 +10,15 @@ Real code: generate() + Model.simplify({'expand_vectors': True}) versus generate
   ones under x[i,j] -> element (i,j) for all values.
 """
 import itertools
+import os
+import re
 import sys
 import traceback
+
+# The family is mapped over 16 worker processes; with the default thread pools of OpenBLAS/OpenMP every worker
+# spins up one thread per core and the run gets slower the more workers there are (measured: 128 s vs 19 s wall).
+for _v in ("OMP_NUM_THREADS", "OPENBLAS_NUM_THREADS", "MKL_NUM_THREADS"):
+    os.environ.setdefault(_v, "1")
 
 import casadi as ca
 import numpy as np
@@ -135,6 +142,396 @@ end M;
 """,
 }
 
+# Hand-written members for classes that do not need a generator: initial equations over arrays, der() of a
+# whole 2-D array, scalar attributes that name ELEMENTS of array parameters (metadata must be re-expressed
+# in the expanded parameters), Integer/Boolean arrays with array attributes, structured array operators
+# in equations (matrix*vector, transpose, slices, sum), arrays inside scalar / re-parameterised components.
+MODELS.update({
+ "init-arrays": """model M
+  parameter Real q[2,3] = {{1, 2, 3}, {4, 5, 6}};
+  parameter Real r[3] = {7, 8, 9};
+  Real A[2,3];
+  Real v[3];
+  Real s;
+initial equation
+  A = 2 * q;
+  v[1] = q[1,2]; v[2] = q[2,1] + r[3]; v[3] = r[1];
+  s = q[2,3] - v[2];
+equation
+  der(A) = -A .* q;
+  der(v) = -v + r;
+  der(s) = A[1,3] - A[2,1];
+end M;
+""",
+ "elem-attrs": """model M
+  parameter Real q[3] = {1, 2, 3};
+  parameter Real T[2,3] = {{1, 2, 3}, {4, 5, 6}};
+  Real s(start = q[2], min = T[1,3], max = T[2,1] + q[3], nominal = 2 * T[2,2]);
+  Real v[2](each start = T[2,2], each max = q[1] + T[1,2]);
+  Real B[2,2](each min = -T[2,3], start = {{1, 2}, {3, 4}});
+  parameter Real k = T[1,2] * q[3];
+  parameter Real kk[3](each max = T[2,1]) = 2 * q;
+equation
+  der(s) = -s * k; der(v) = -v; der(B) = -B;
+end M;
+""",
+ "int-bool-arrays": """model M
+  parameter Real p = 2;
+  parameter Integer n[2,3] = {{1, 2, 3}, {4, 5, 6}};
+  Integer k[2,3](start = {{3, 4, 5}, {6, 7, 8}}, min = n, max = {{9, 9, 9}, {8, 8, 8}});
+  Integer j[3](start = {3, 4, 5}, min = {0, 1, 2});
+  Boolean b[2](start = {true, false});
+  Real f[2,3](fixed = {{true, true, false}, {true, false, false}}, each start = p);
+  Real g[3](fixed = {true, false, true}, start = {1, 2, 3});
+equation
+  k = n; j[1] = n[1,2]; j[2] = n[2,1]; j[3] = 0;
+  b[1] = p > 1; b[2] = f[1,2] > g[3];
+  der(f) = -f; der(g) = -g;
+end M;
+""",
+ "array-ops": """model M
+  parameter Real lo[2,3] = {{1, 2, 3}, {4, 5, 6}};
+  parameter Real q[3] = {1, 2, 3};
+  Real r[2];
+  Real s3[3];
+  Real B[3,2];
+  Real v[3];
+  Real t;
+  output Real C[2,3];
+equation
+  r = lo * s3;
+  der(s3) = -s3 .* q;
+  B = transpose(lo) + transpose(C);
+  v[1:2] = q[2:3] + s3[1:2]; v[3] = r[2];
+  t = sum(q) + sum(s3);
+  der(C) = lo - C;
+end M;
+""",
+ # `each` attribute written as a constant arithmetic expression: generate() folds it to a 1x1 ca.DM (known finding)
+ "const-expr-attr": """model M
+  Real v[3](each min = 3 * 2, start = {1, 2, 3});
+equation
+  der(v) = -v;
+end M;
+""",
+ "comp-scalar-holding-arrays": """model Q
+  parameter Real g[3] = {1, 2, 3};
+  parameter Real G[2,2] = {{1, 2}, {3, 4}};
+  Real w[3](start = g, max = 2 * g);
+  Real W[2,2](start = G, min = -G);
+equation
+  der(w) = -w .* g;
+  der(W) = -W .* G;
+end Q;
+model M
+  Q qq;
+  Q rr(g = {4, 5, 6});
+  output Real o[3];
+equation
+  o = qq.w + rr.w;
+end M;
+""",
+})
+
+
+# ------------------------------------------------------------------------------------------------
+# Generated families.  Every generator yields (model id, Modelica text, in_quick_tier).
+# ------------------------------------------------------------------------------------------------
+def _lit(dims, base=1, fmt=None):
+    """Nested Modelica array literal with pairwise distinct entries base, base+1, ... in row-major order
+    (never symmetric, so a transposed / column-major element selection is visible)."""
+    cnt = itertools.count()
+    fmt = fmt or (lambda k: str(base + k))
+
+    def rec(ds):
+        if not ds:
+            return fmt(next(cnt))
+        return "{" + ", ".join(rec(ds[1:]) for _ in range(ds[0])) + "}"
+    return rec(list(dims))
+
+
+_BOOLS = (1, 1, 0, 1, 0, 0, 1, 0, 1)
+
+
+def _blit(dims):
+    return _lit(dims, fmt=lambda k: "true" if _BOOLS[k % len(_BOOLS)] else "false")
+
+
+def _dd(dims):
+    return "[" + ",".join(str(d) for d in dims) + "]"
+
+
+def _dm_expr(dims, b):
+    """array-valued constant expression that generate() turns into a ca.DM (dense or sparse) instead of a list:
+    2 * {..} for vectors; for matrices (2 * {{..}} is rejected by generate) diagonal(..) if square, else fill(..)."""
+    if len(dims) == 1:
+        return "2 * " + _lit(dims, b)
+    if dims[0] == dims[1]:
+        return "diagonal(" + _lit(dims[:1], b) + ")"
+    return f"fill({b}.5, {dims[0]}, {dims[1]})"
+
+
+# attribute expression kinds: (tag, text given names of two array parameters and the literal base, needs 'each')
+ATTR_KINDS = [
+    ("lit", lambda lo, hi, dims, b: _lit(dims, b)),
+    ("lit-expr", lambda lo, hi, dims, b: _dm_expr(dims, b + 3)),
+    ("par", lambda lo, hi, dims, b: lo),
+    ("neg", lambda lo, hi, dims, b: "-" + hi),
+    ("aff", lambda lo, hi, dims, b: "2 * " + lo),
+    ("shift", lambda lo, hi, dims, b: lo + " - 0.5"),
+    ("sum", lambda lo, hi, dims, b: f"{lo} + p * {hi}"),
+    ("prod", lambda lo, hi, dims, b: f"{lo} .* {hi}"),
+    ("quot", lambda lo, hi, dims, b: f"{hi} ./ {lo}"),
+    ("each-par", lambda lo, hi, dims, b: "each p"),
+    ("each-lit", lambda lo, hi, dims, b: "each 1.5"),
+    ("scalar", lambda lo, hi, dims, b: "3 * p"),
+]
+NK = len(ATTR_KINDS)
+
+
+def _attr_mods(j, attrs, rot, lo, hi, dims, no_lit=False):
+    """attribute modifications for variable number j: attribute k gets expression kind (5j + k + rot) mod NK."""
+    out = []
+    for k, a in enumerate(attrs):
+        tag, fn = ATTR_KINDS[(5 * j + k + rot) % NK]
+        if a == "fixed":
+            out.append("fixed = " + _blit(dims) if (j + k + rot) % 3 and not no_lit else "each fixed = true")
+            continue
+        if no_lit and tag in ("lit", "lit-expr"):
+            tag, fn = ATTR_KINDS[2]
+        txt = fn(lo, hi, dims, 10 * j + k + 1)
+        if txt.startswith("each "):
+            out.append(f"each {a} = {txt[5:]}")
+        else:
+            out.append(f"{a} = {txt}")
+    return ", ".join(out)
+
+
+def _value_kind(j, rot, lo, hi, dims):
+    tag, fn = ATTR_KINDS[(5 * j + rot) % NK]
+    if tag in ("each-par", "each-lit", "scalar"):
+        tag, fn = ATTR_KINDS[4]
+    return fn(lo, hi, dims, 40)
+
+
+ATTR_SHAPES = [(3,), (2, 3), (3, 2), (2, 2), (1, 3), (3, 1), (1,), (1, 1)]
+
+
+def gen_attr_plain(dims, rot):
+    """One model per (shape, rotation): a state, an algebraic, an input, a parameter and an output state of that
+    shape, each attribute carrying a different kind of expression of the array parameters lo, hi and scalar p."""
+    D = _dd(dims)
+    m = lambda j, attrs: _attr_mods(j, attrs, rot, "lo", "hi", dims)
+    return f"""model M
+  parameter Real lo{D} = {_lit(dims, 1)};
+  parameter Real hi{D} = {_lit(dims, 21)};
+  parameter Real p = 2;
+  Real x0{D}({m(0, ['start', 'min', 'max', 'nominal'])});
+  Real x1{D}({m(1, ['start', 'min', 'max', 'nominal'])});
+  input Real x2{D}({m(2, ['min', 'max', 'nominal'])});
+  parameter Real x3{D}({m(3, ['min', 'max', 'nominal'])}) = {_value_kind(3, rot, 'lo', 'hi', dims)};
+  output Real x4{D}({m(4, ['start', 'fixed', 'max'])});
+  constant Real x5{D}({m(5, ['min'])}) = {_lit(dims, 61)};
+equation
+  der(x0) = -x0 .* lo + x2;
+  x1 = x0 + hi .* x5;
+  der(x4) = x1 - x3;
+end M;
+"""
+
+
+def gen_attr_compmod(rot, n_outer):
+    """component array qq[n] (or a scalar component for n_outer = 0) holding arrays w[3], u[3], d[3] and a scalar y;
+    all attributes come from modifications in M and are n x 3 / n expressions of M's parameters."""
+    cd = (n_outer,) if n_outer else ()
+    dims, D1 = cd + (3,), _dd(cd) if cd else ""
+    m = lambda j, attrs: _attr_mods(j, attrs, rot, "lo", "hi", dims)
+    ymod = f", y({_attr_mods(3, ['start', 'max'], rot, 'l1', 'h1', cd)})" if cd else ", y(start = 3 * p, max = p)"
+    l1 = f"  parameter Real l1{D1} = {_lit(cd, 51)};\n  parameter Real h1{D1} = {_lit(cd, 71)};\n" if cd else ""
+    return f"""model Q
+  Real w[3];
+  Real y;
+  Real u[3];
+  parameter Real d[3];
+equation
+  der(w) = -w .* d + u;
+  u = 2 * w;
+  y = w[1] + w[3];
+end Q;
+model M
+  parameter Real lo{_dd(dims)} = {_lit(dims, 1)};
+  parameter Real hi{_dd(dims)} = {_lit(dims, 21)};
+  parameter Real p = 2;
+{l1}  Q qq{D1}(w({m(0, ['start', 'min', 'max', 'nominal'])}), u({m(1, ['start', 'min', 'max'])}), d({m(2, ['min', 'max'])}){ymod});
+  output Real o;
+equation
+  o = qq{'[' + str(n_outer) + ']' if cd else ''}.y;
+end M;
+"""
+
+
+def gen_attr_compinner(rot, n_outer):
+    """the attributes are written INSIDE the component class in terms of its own array parameters; instantiating
+    the class as qq[n] turns them into n x 3 symbolic attributes."""
+    D1 = _dd((n_outer,)) if n_outer else ""
+    # inside a component ARRAY pymoca turns the scalar parameter p into a vector (p * hi would be a matrix product,
+    # which generate() rejects) and cannot replicate array literals, so those two kinds use literals / lo there
+    # (3 * p becomes the literal 6.5, not 3 * 2: constant-folded scalar attributes are the known finding `const-expr-attr`)
+    m = lambda j, attrs: re.sub(r"\bp\b", "2", _attr_mods(j, attrs, rot, "lo", "hi", (3,), no_lit=True).replace("3 * p", "6.5")) \
+        if n_outer else _attr_mods(j, attrs, rot, "lo", "hi", (3,))
+    return f"""model Q
+  parameter Real lo[3];
+  parameter Real hi[3];
+  parameter Real p;
+  Real w[3]({m(0, ['start', 'min', 'max', 'nominal'])});
+  Real a[3]({m(1, ['start', 'min', 'max', 'nominal'])});
+  parameter Real d[3]({m(2, ['min', 'max'])});
+equation
+  der(w) = -w .* d + a;
+  a = 2 * w + lo;
+end Q;
+model M
+  Q qq{D1};
+  output Real o;
+equation
+  o = qq{'[' + str(n_outer) + ']' if n_outer else ''}.w[2];
+end M;
+"""
+
+
+# --- outputs -------------------------------------------------------------------------------------
+OUT_KINDS = ["S0", "S1", "S2", "A0", "A1", "A2"]        # S = differentiated state, A = algebraic; 0/1/2 = number of dims
+_OUT_DIMS = {"0": [()], "1": [(2,), (3,)], "2": [(2, 2), (1, 2), (2, 3)]}
+
+
+def gen_outputs(seq, pad):
+    """outputs declared in the order `seq`; pad = 1 interleaves non-output arrays (a state and an algebraic one) so
+    that positions in the variable lists and in `outputs` differ; pad = 2 additionally makes them `output`-free scalars."""
+    decl, eqs = [], []
+    for i, kd in enumerate(seq):
+        dims = _OUT_DIMS[kd[1]][i % len(_OUT_DIMS[kd[1]])]
+        nm = f"o{i}"
+        if pad and i == 1:
+            decl.append("  Real n1[2];" if pad == 1 else "  Real n1;")
+            eqs.append("  der(n1) = -n1;")
+        decl.append(f"  output Real {nm}{_dd(dims) if dims else ''};")
+        if kd[0] == "S":
+            eqs.append(f"  der({nm}) = -{nm} * {i + 2};")
+        else:
+            for ind in np.ndindex(*dims) if dims else [()]:
+                sub = "[" + ",".join(str(a + 1) for a in ind) + "]" if dims else ""
+                eqs.append(f"  {nm}{sub} = {i + 2 + sum((a + 1) * 10 ** b for b, a in enumerate(ind))} * time;")
+        if pad and i == 0:
+            decl.append("  Real m1[3];" if pad == 1 else "  Real m1;")
+            eqs.append("  m1 = {1, 2, 3} * time;" if pad == 1 else "  m1 = time;")
+    return "model M\n" + "\n".join(decl) + "\nequation\n" + "\n".join(eqs) + "\nend M;\n"
+
+
+# --- delays --------------------------------------------------------------------------------------
+# delayed expression kinds: (tag, result declaration, equation template with {D} = duration)
+DELAY_EXPRS = [
+    ("vec", "Real {Y}[3];", "{Y} = delay(x, {D});"),
+    ("vexpr", "Real {Y}[3];", "{Y} = delay(2 * x + z, {D});"),
+    ("el", "Real {Y};", "{Y} = delay(x[2], {D});"),
+    ("elexpr", "Real {Y};", "{Y} = delay(x[1] * tau[2] + x[3], {D});"),
+    ("mat", "Real {Y}[2,3];", "{Y} = delay(A, {D});"),
+    ("matel", "Real {Y};", "{Y} = delay(A[1,3] - A[2,1], {D});"),
+    ("sc", "Real {Y};", "{Y} = delay(s, {D});"),
+    ("loop", "Real {Y}[3];", "for i in 2:3 loop\n    {Y}[i] = lag * delay(3 * x[i] * lag, {D});\n  end for;\n  {Y}[1] = 0;"),
+    ("loop2d", "Real {Y}[2,3];", "for i in 1:2 loop\n    {Y}[i,2] = delay(A[i,3] + T[i,1], {D});\n  end for;\n  {Y}[1,1] = 0; {Y}[1,3] = 0; {Y}[2,1] = 0; {Y}[2,3] = 0;"),
+]
+# durations: scalar expressions of a literal, a scalar parameter and ELEMENTS of array parameters / constants / fixed inputs
+DELAY_DURS = [
+    ("lit", "0.5"), ("lag", "lag"), ("tau1", "tau[1]"), ("tau2", "tau[2]"), ("3tau1", "3 * tau[1]"),
+    ("T12", "T[1,2]"), ("T21", "T[2,1]"), ("cc2", "cc[2]"), ("fi2", "fi[2]"), ("tau1+T23", "tau[1] + T[2,3]"),
+    ("lag*cc1", "lag * cc[1]"), ("fi1+tau2", "fi[1] + tau[2]"), ("F21", "F[2,1]"),
+]
+_DELAY_HEAD = """  parameter Real tau[2] = {0.5, 1.5};
+  parameter Real T[2,3] = {{1, 2, 3}, {4, 5, 6}};
+  parameter Real lag = 2;
+  constant Real cc[2] = {0.25, 0.75};
+  input Real fi[2](each fixed = true);
+  input Real F[2,2](each fixed = true);
+  input Real z[3];
+  Real x[3];
+  Real A[2,3];
+  Real s;
+"""
+_DELAY_EQS = "  der(x) = -x;\n  der(A) = -A;\n  der(s) = -s;\n"
+
+
+def gen_delay(picks):
+    """one model with one delay per (expression kind, duration kind) pair in `picks`."""
+    decl, eqs = [], []
+    for n, (e, d) in enumerate(picks):
+        _, dc, eq = DELAY_EXPRS[e]
+        decl.append("  " + dc.replace("{Y}", f"y{n}"))
+        eqs.append("  " + eq.replace("{Y}", f"y{n}").replace("{D}", DELAY_DURS[d][1]))
+    return "model M\n" + _DELAY_HEAD + "\n".join(decl) + "\nequation\n" + _DELAY_EQS + "\n".join(eqs) + "\nend M;\n"
+
+
+def gen_delay_comp(n_dur, outer):
+    """the delay and the array parameter its duration indexes live inside a component (flat names qq.tau[2])."""
+    dur = ["tau[2]", "3 * tau[1]", "T[2,1]", "tau[1] + T[1,2]"][n_dur]
+    return f"""model Q
+  parameter Real tau[2] = {{0.5, 1.5}};
+  parameter Real T[2,2] = {{{{1, 2}}, {{3, 4}}}};
+  Real x[3];
+  Real y[3];
+  Real z;
+equation
+  der(x) = -x;
+  y = delay(2 * x, {dur});
+  z = delay(x[3], tau[1]);
+end Q;
+model M
+  Q qq;
+  parameter Real tau[2] = {{7, 8}};
+  Real w;
+equation
+  w = delay(qq.x[1], {'tau[2]' if outer else '2 * tau[1]'});
+end M;
+"""
+
+
+def family(tier):
+    """[(model id, text)] for the tier."""
+    thorough = tier == "thorough"
+    items = list(MODELS.items())
+    # (A) symbolic array attributes
+    for dims in ATTR_SHAPES:
+        for rot in range(NK):
+            if thorough or rot % 2 == 0 or dims in ((2, 3), (3, 2)):
+                items.append((f"attr:{'x'.join(map(str, dims))}:r{rot}", gen_attr_plain(dims, rot)))
+    for n_outer in (2, 0, 1, 3):
+        for rot in range(NK):
+            if thorough or (n_outer == 2) or rot % 4 == 0:
+                items.append((f"attr-compmod:{n_outer}x3:r{rot}", gen_attr_compmod(rot, n_outer)))
+                items.append((f"attr-compinner:{n_outer}x3:r{rot}", gen_attr_compinner(rot, n_outer)))
+    # (B) output lists
+    for n in (1, 2, 3, 4):
+        for seq in itertools.product(OUT_KINDS, repeat=n):
+            if all(k[1] == "0" for k in seq):
+                continue  # no array: nothing is expanded
+            for pad in (0, 1, 2):
+                if n == 1 and pad:
+                    continue
+                quick = (n <= 2) or (n == 3 and pad == 0) or (n == 3 and pad == 1 and seq[0][0] != seq[1][0])
+                if thorough or quick:
+                    items.append((f"out:{'.'.join(seq)}:pad{pad}", gen_outputs(seq, pad)))
+    # (C) delays
+    for e in range(len(DELAY_EXPRS)):
+        for d in range(len(DELAY_DURS)):
+            items.append((f"delay:{DELAY_EXPRS[e][0]}:{DELAY_DURS[d][0]}", gen_delay([(e, d)])))
+    ne, nd = len(DELAY_EXPRS), len(DELAY_DURS)
+    for k in range(nd if thorough else 6):      # several delays per model: order of delay states, shared durations
+        picks = [((k + 2 * i) % ne, (3 * k + 5 * i) % nd) for i in range(3)]
+        items.append((f"delay-multi:{k}", gen_delay(picks)))
+    for n_dur in range(4):
+        for outer in (0, 1):
+            items.append((f"delay-comp:{n_dur}:{outer}", gen_delay_comp(n_dur, outer)))
+    return items
+
 
 def expected_names(sym):
     """(expanded name, my element name) in expansion (row-major) order for an unexpanded symbol,
@@ -165,6 +562,19 @@ def expected_names(sym):
         mine = elem_name(name, tuple(ind))
         out.append((exp, mine))
     return out
+
+
+def _replay(fa, names_a, oa, ka, fb, names_b, ob, kb, pt):
+    """numeric replay of a z3 `sat` on the two real Functions: (value a, value b) if they differ, else None."""
+    for p in equiv.perturbations(pt, 0):
+        try:
+            va = modelio.eval_function(fa, names_a, p)[oa][ka]
+            vb = modelio.eval_function(fb, names_b, p)[ob][kb]
+        except Exception:
+            continue
+        if not equiv.close(va, vb):
+            return va, vb
+    return None
 
 
 def check(col, mid, text):
@@ -267,20 +677,36 @@ def check(col, mid, text):
             bmap = {}
             for i, d in enumerate(base.delay_states):
                 exprs, dur = zb[2 * i]["dense"], zb[2 * i + 1]["dense"]
-                for k, nm in enumerate(delay_map[d]):
-                    bmap[nm] = (exprs[k] if len(exprs) > 1 else exprs[0], dur[0])
+                shp = zb[2 * i]["shape"]
+                if len(exprs) != len(delay_map[d]) or len(dur) != 1:
+                    raise EncodingGap(f"delay {d}: {len(exprs)} expression elements for {len(delay_map[d])} names, {len(dur)} durations")
+                # delay_map is in row-major (expansion) order, `dense` in CasADi's column-major order
+                for nm, ind in zip(delay_map[d], np.ndindex(*shp)):
+                    bmap[nm] = (exprs[ind[0] + ind[1] * shp[0]], dur[0], (2 * i, ind[0] + ind[1] * shp[0]), (2 * i + 1, 0))
             for i, d in enumerate(ex.delay_states):
                 if d not in bmap:
                     continue
-                for j, (tb, ta) in enumerate(zip((ze[2 * i]["dense"][0], ze[2 * i + 1]["dense"][0]), bmap[d])):
+                if len(ze[2 * i]["dense"]) != 1 or len(ze[2 * i + 1]["dense"]) != 1:
+                    col.violation(f"{case}:delay:{d}:not-scalar", "expanded delay argument is not a scalar", {"model_text": text, "options": opts})
+                    continue
+                for j in (0, 1):
+                    tb, ta, (ob, kb) = ze[2 * i + j]["dense"][0], bmap[d][j], bmap[d][2 + j]
                     col.bump("delay_elements")
-                    if ta.get_id() != tb.get_id():
-                        r, m = equiv.check(col, div.nonzero() + [ta != tb])
-                        if r == "sat":
-                            col.violation(f"{case}:delay:{d}:{'expr' if j == 0 else 'duration'}", "delay argument differs after expansion",
-                                          {"model_text": text, "options": opts})
-                    else:
+                    if ta.get_id() == tb.get_id():
                         col.count("unsat")
+                        continue
+                    r, m = equiv.check(col, div.nonzero() + [ta != tb])
+                    which = "expr" if j == 0 else "duration"
+                    if r == "sat":
+                        pt = equiv.point_from_model(m, [ta, tb])
+                        diff = _replay(fb, names_b, ob, kb, fe, names_e, 2 * i + j, 0, pt)
+                        if diff:
+                            col.violation(f"{case}:delay:{d}:{which}", f"delay {which} differs after expansion",
+                                          {"model_text": text, "options": opts, "point": pt, "unexpanded": diff[0], "expanded": diff[1]})
+                        else:
+                            col.note_inconclusive(f"{case}:delay:{d}:{which} sat did not replay")
+                    elif r == "unknown":
+                        col.note_inconclusive(f"{case}:delay:{d}:{which} unknown")
         # metadata rows under the renaming
         pn_b = [names_b[6]]
         pn_e = [names_e[6]]
@@ -301,8 +727,15 @@ def check(col, mid, text):
                         continue
                     r, m = equiv.check(col, div.nonzero() + [ta != tb])
                     if r == "sat":
-                        col.violation(f"{case}:attr:{nm}:{ci}", f"attribute {('value','min','max','start','fixed','nominal')[ci]} of {nm} differs after expansion",
-                                      {"model_text": text, "options": opts})
+                        pt = equiv.point_from_model(m, [ta, tb])
+                        diff = _replay(base_fns[2], pn_b, gi, ci * nb + rb, ex_fns[2], pn_e, gi, ci * ne + ri, pt)
+                        if diff:
+                            col.violation(f"{case}:attr:{nm}:{ci}", f"attribute {('value','min','max','start','fixed','nominal')[ci]} of {nm} differs after expansion",
+                                          {"model_text": text, "options": opts, "point": pt, "unexpanded": diff[0], "expanded": diff[1]})
+                        else:
+                            col.note_inconclusive(f"{case}:attr:{nm}:{ci} sat did not replay")
+                    elif r == "unknown":
+                        col.note_inconclusive(f"{case}:attr:{nm}:{ci} unknown")
         # python types
         for cat in cats:
             tb_ = {nm: v.python_type for v in getattr(base, cat) for nm in modelio.sym_elem_names(v.symbol)}
@@ -328,7 +761,7 @@ def work(item):
 def main():
     args = std_args(PROP)
     rep = Report(PROP, args.tier, "translation_validation", args.seed)
-    items = list(MODELS.items())
+    items = family(args.tier)
     items += [("repo:SimplifyVector", open(REPO + "/test/models/SimplifyVector.mo").read().replace("SimplifyVector", "M")),
               ("repo:DelayForLoop", open(REPO + "/test/models/DelayForLoop.mo").read().replace("DelayForLoop", "M"))]
     for col in run_parallel(work, items, args.jobs):
